@@ -274,11 +274,29 @@ Definition shape_b (k : nat) (cs : list node) : bool :=
   | _ => no_children cs
   end.
 
+(* OP / ANCHOR nodes are only looked at by their parent, in their designated position. *)
+Definition visitable (n : node) : bool :=
+  negb (has_policy P_OP n || has_policy P_ANCHOR n).
+
+Definition plain_children (k : nat) (cs : list node) : bool :=
+  match policy k with
+  | 3%nat => match cs with [l; _; r] => visitable l && visitable r | _ => false end
+  | 9%nat => match cs with _ :: args => forallb visitable args | [] => false end
+  | _ => forallb visitable cs
+  end.
+
+(* shape only *)
+Fixpoint shaped_b (n : node) : bool :=
+  match n with
+  | N _ k _ _ cs => shape_b k cs && forallb shaped_b cs
+  end.
+
 Fixpoint wf_b (n : node) : bool :=
   match n with
   | N s k _ _ cs =>
       (start s <=? end_ s)
       && shape_b k cs
+      && plain_children k cs
       && forallb (fun c => contains s (nspan c)) cs
       && ordered_b (map nspan cs)
       && forallb wf_b cs
@@ -289,17 +307,6 @@ Definition plain_policy (q : nat) : bool :=
   match q with
   | 5%nat | 10%nat | 11%nat | 13%nat => false
   | _ => true
-  end.
-
-(* OP / ANCHOR nodes are only looked at by their parent, in their designated position. *)
-Definition visitable (n : node) : bool :=
-  negb (has_policy P_OP n || has_policy P_ANCHOR n).
-
-Definition plain_children (k : nat) (cs : list node) : bool :=
-  match policy k with
-  | 3%nat => match cs with [l; _; r] => visitable l && visitable r | _ => false end
-  | 9%nat => match cs with _ :: args => forallb visitable args | [] => false end
-  | _ => forallb visitable cs
   end.
 
 Fixpoint plain_b (n : node) : bool :=
